@@ -14,7 +14,7 @@ reference (a string), a member written bare is a name lookup that needs the memb
                             lexical state (code / inside a string literal / inside a comment) it sits in
 * `occs`                    the member-name occurrences of the rendered alias for given members and
                             template variables, each with "is it evaluated eagerly?"
-* `safeMulti`, `safeOther`  decidable side conditions on a template (checked by the kernel on the
+* `safeFrom`, `safeOther`   decidable side conditions on a template (checked by the kernel on the
                             generated value)
 * `Def`, `refs`             a named GraphQL type as the parser sees it; its `reference_classes`
                             (interfaces, and the fields whose named type is an enum — `parse_field`
@@ -131,20 +131,21 @@ def eagerMembers (os : List Occ) : List Name :=
 def quotedMembers (os : List Occ) : List Name :=
   os.filterMap (fun o => match o with | .member n false => some n | _ => none)
 
-/-- what is known of a condition when only `2 ≤ fields|length` is known -/
-def cond2 : UCond → Option Bool
+/-- what is known of a condition when only `lo ≤ fields|length` is known (`lo = 1`: the union has a
+member, which GraphQL requires; `lo = 2`: two or more) -/
+def condFrom (lo : Nat) : UCond → Option Bool
   | .tt => some true
-  | .lenGt k => if k < 2 then some true else none
+  | .lenGt k => if k < lo then some true else none
   | .var _ => none
-  | .not c => (cond2 c).map (fun b => !b)
+  | .not c => (condFrom lo c).map (fun b => !b)
   | .and a b =>
-    match cond2 a, cond2 b with
+    match condFrom lo a, condFrom lo b with
     | some false, _ => some false
     | _, some false => some false
     | some true, some true => some true
     | _, _ => none
   | .or a b =>
-    match cond2 a, cond2 b with
+    match condFrom lo a, condFrom lo b with
     | some true, _ => some true
     | _, some true => some true
     | some false, some false => some false
@@ -157,16 +158,18 @@ def siteDeferred : USite → Lex → Bool
   | _, .code => false
   | _, _ => true
 
-/-- SIDE CONDITION: on every path a union of two or more members can take — whatever the template
-variables are — every member (and every other expression) is outside code -/
-def safeMulti : UTpl → Bool
+/-- SIDE CONDITION: on every path a union of `lo` or more members can take — whatever the template
+variables are — every member (and every other expression) is outside code. `safeFrom 1`: no union
+alias evaluates anything; `safeFrom 2` is what held of the template before the one-member form quoted
+its member. -/
+def safeFrom (lo : Nat) : UTpl → Bool
   | .done => true
-  | .site s l rest => siteDeferred s l && safeMulti rest
+  | .site s l rest => siteDeferred s l && safeFrom lo rest
   | .ite c t e rest =>
-    (match cond2 c with
-      | some true => safeMulti t
-      | some false => safeMulti e
-      | none => safeMulti t && safeMulti e) && safeMulti rest
+    (match condFrom lo c with
+      | some true => safeFrom lo t
+      | some false => safeFrom lo e
+      | none => safeFrom lo t && safeFrom lo e) && safeFrom lo rest
 
 /-- SIDE CONDITION: no expression other than the class name and the member names is in code, on any path -/
 def safeOther : UTpl → Bool
@@ -201,8 +204,8 @@ def tplVars : UTpl → List String
   | .site _ _ rest => tplVars rest
   | .ite c t e rest => condVars c ++ tplVars t ++ tplVars e ++ tplVars rest
 
-/-- REFUTER of `safeMulti`: a set of true template variables and a member count (2 or the smallest
-count above every `length >` bound) under which some member is evaluated eagerly. -/
+/-- REFUTER of `safeFrom 1`: a set of true template variables and a member count (from 1 up to the
+smallest count above every `length >` bound) under which some member is evaluated eagerly. -/
 def maxLen : UCond → Nat
   | .lenGt k => k + 1
   | .not c => maxLen c
@@ -223,7 +226,7 @@ def probeMembers (n : Nat) : List Name := (List.range n).map (fun i => 'M' :: (t
 
 def findEagerBranch (tpl : UTpl) : Option (List String × Nat) :=
   let vars := (tplVars tpl).eraseDups
-  let counts := (List.range (tplMaxLen tpl + 2)).filter (fun n => 2 ≤ n)
+  let counts := (List.range (tplMaxLen tpl + 2)).filter (fun n => 1 ≤ n)
   (counts.flatMap (fun n => (subsets vars).map (fun s => (s, n)))).find? (fun (s, n) =>
     match occs (fun v => s.contains v) (probeMembers n) tpl with
     | some os => os.any Occ.eager
